@@ -33,5 +33,22 @@ theorem coincidence_run (m : Model α) (b : Backend)
   simp only [] at this
   rw [this]
 
+/-- Corollary: a key the model does not use can be added to the parameters of a call (with any value, in
+front of the others — so even shadowing nothing) without changing anything `run_model` returns. -/
+theorem unused_key_irrelevant (m : Model α) (b : Backend)
+    (solve : (List α → α → List α) → List α → List α → List (List α))
+    (doBase p : List (String × α)) (k : String) (v : α)
+    (hk : k ∉ inputParams m ++ rebalanceParams m) :
+    run_model m b solve doBase ((k, v) :: p) = run_model m b solve doBase p := by
+  apply coincidence_run
+  intro k' hk'
+  have hne : (k == k') = false := by
+    apply beq_false_of_ne
+    rintro rfl
+    exact hk hk'
+  unfold alookup
+  simp [hne]
+
 #print axioms coincidence_run
+#print axioms unused_key_irrelevant
 end Summer.Props.C09EndToEnd
